@@ -49,6 +49,8 @@ type checker struct {
 
 	execs, calls, blocks, harnessErrs vk.Counter
 	states                            *vk.Set
+	// hand-assembled scripts: what the handlers did (model), over all executions
+	hProgs, hCatches, hFinallies, hFinalliesPending, hSwallowed, hHaltUndone, hHalt, hFault vk.Counter
 }
 
 const perClassCap = 3
@@ -89,7 +91,7 @@ func (c *checker) evalTest(rg *rig, prog string) (m *Result, what, detail []stri
 		return nil, nil, nil, err
 	}
 	com := needsCommittee(ops)
-	m = runModel(c.s0, ops, com)
+	m = c.model(c.s0, ops, com)
 	var rr *real
 	if e := chainxTry(func() { rr, err = rg.runTest(ops, com) }); e != nil {
 		return m, []string{"panic"}, []string{"panic: " + e.Error()}, nil
@@ -99,6 +101,29 @@ func (c *checker) evalTest(rg *rig, prog string) (m *Result, what, detail []stri
 	}
 	what, detail = compare(m, rr)
 	return
+}
+
+// model runs the reference interpreter and, for hand-assembled scripts, counts what the handlers did.
+func (c *checker) model(init *State, ops []Op, com bool) *Result {
+	if !isHand(ops) {
+		return runModel(init, ops, com)
+	}
+	hs := &hstat{}
+	m := runModelStat(init, ops, com, hs)
+	c.hProgs.Inc()
+	c.hCatches.Add(hs.catches)
+	c.hFinallies.Add(hs.finallies)
+	c.hFinalliesPending.Add(hs.finalliesPending)
+	c.hSwallowed.Add(hs.swallowed)
+	switch {
+	case !m.Halt:
+		c.hFault.Inc()
+	case m.Undone:
+		c.hHaltUndone.Inc()
+	default:
+		c.hHalt.Inc()
+	}
+	return m
 }
 
 // evalBlocks runs the programs one per block on a fresh replica, comparing
@@ -120,7 +145,7 @@ func (c *checker) evalBlocks(progs []string, each func(i int, m *Result)) (idx i
 		if err != nil {
 			return -1, nil, nil, err
 		}
-		m := runModel(init, ops, com)
+		m := c.model(init, ops, com)
 		var rr *real
 		if e := chainxTry(func() { rr, err = rg.runBlock(ops, com) }); e != nil {
 			return i, []string{"panic"}, []string{"panic: " + e.Error()}, nil
@@ -259,6 +284,25 @@ func TestCheck(t *testing.T) {
 			"nested_kinds_level1": sp.Kinds[1], "nested_kinds_level2": sp.Kinds[2], "programs": len(ps), "new_programs": fresh, "also_in_real_blocks": sp.Block})
 		fmt.Printf("space %s: %d programs (%d new)\n", sp.Name, len(ps), fresh)
 	}
+	// hand-assembled entry scripts: handlers nested in one context
+	hInfo := []map[string]any{}
+	for _, hs := range hspaces(r.Thorough(), c.s0) {
+		fresh := 0
+		for _, p := range hs.Progs {
+			if !seen[p] {
+				seen[p] = true
+				fresh++
+				all = append(all, p)
+			}
+			if hs.Block && !seenBlk[p] {
+				seenBlk[p] = true
+				blk = append(blk, p)
+			}
+		}
+		hs.Info["name"], hs.Info["new_programs"] = hs.Name, fresh
+		hInfo = append(hInfo, hs.Info)
+		fmt.Printf("space %s: %d programs (%d new)\n", hs.Name, len(hs.Progs), fresh)
+	}
 	seen, seenBlk = nil, nil
 	sortProgs(all)
 	sortProgs(blk)
@@ -358,6 +402,10 @@ func TestCheck(t *testing.T) {
 		"layerA_programs":                len(all),
 		"layerA_programs_in_real_blocks": len(blk),
 		"layerA_spaces":                  spaceInfo,
+		"layerA_handler_script_spaces":   hInfo,
+		"layerA_handler_script_model_counts": map[string]int64{"executions": c.hProgs.Get(), "catch_parts_entered": c.hCatches.Get(), "finally_parts_entered": c.hFinallies.Get(),
+			"finally_parts_entered_with_pending_exception": c.hFinalliesPending.Get(), "pending_exception_lost_in_finally_fault": c.hSwallowed.Get(),
+			"halt_with_callee_changes_undone": c.hHaltUndone.Get(), "halt_other": c.hHalt.Get(), "fault": c.hFault.Get()},
 		"layerA_test_outcomes": map[string]int64{"halt_callee_changes_undone": undone.Get(), "halt_callee_failed_nothing_to_undo": restoredNoop.Get(),
 			"halt_no_failure": plain.Get(), "fault": faulted.Get()},
 		"layerA_block_outcomes":           map[string]int64{"halt_callee_changes_undone": bUndone.Get(), "fault": bFault.Get(), "halt_other": bHalt.Get()},
